@@ -52,6 +52,31 @@ def loop_program(rng, iters):
     return "\n".join(g.prog_alloc(iters)) + "\n"
 
 
+# loop bodies with a bounded live set (at most `prev` survives an iteration), one per kind of garbage
+DIRECTED_LOOPS = [
+    ("nested-fibers-run-to-completion", "var outer = Fiber.new(|p| { var inner = Fiber.new(|| { return 1; }); inner.call(); return inner; }); prev = outer.call(prev);"),
+    ("fiber-suspended-then-dropped", "var fb = Fiber.new(|a| { var loc = [a]; Fiber.yield(loc); return loc; }); prev = fb.call(i);"),
+    ("fiber-finished-returning-closure", "var fb = Fiber.new(|| { var n = [i]; return || n; }); prev = fb.call();"),
+    ("fiber-failed", "var fb = Fiber.new(|| { var loc = [i]; throw loc; }); try { fb.call(); } catch e { prev = e; }"),
+    ("fiber-chain-of-three", "var a = Fiber.new(|| { var b = Fiber.new(|| { var c = Fiber.new(|| { Fiber.yield(1); return 2; }); c.call(); return c; }); return b.call(); }); prev = a.call();"),
+    ("closure-over-loop-local", "var cell = [i, prev]; cell[1] = nil; prev = || cell;"),
+    ("class-per-iteration", "#[constructor(new)] class K { fn m(self) { return self.v; } } var o = K.new(); o.v = [i]; prev = o.m;"),
+    ("subclass-per-iteration", "class A { fn a(self) { return 1; } } #[derive(A), constructor(new)] class B { fn b(self) { return super.a(); } } prev = B.new();"),
+    ("iterator-chain", "prev = [i, i + 1, i + 2].iter().map(|v| [v]).filter(|v| v[0] > 0);"),
+    ("exception-with-trace", "fn thrower(n) { if n == 0 { var z = nil + 1; } return thrower(n - 1); } try { thrower(5); } catch e { prev = e; }"),
+    ("return-through-finally", "fn f() { try { return [i, [i]]; } finally { var scratch = [i]; } } prev = f();"),
+    ("map-with-tuple-keys", "var m = {(i, i + 1): [i], \"k\": (i, [i])}; m.insert(i, m.keys()); prev = m.values();"),
+    ("ranges", "var r = i..(i + 3); prev = r.iter();"),
+    ("string-iterator", "prev = (\"ab\" + \"cd\").iter();"),
+    ("bound-native", "prev = [i, i].len;"),
+    ("vector-window", "if prev == nil { prev = []; } prev.push([i]); if prev.len() > 4 { prev = prev[1..5]; }"),
+]
+
+
+def directed_loop(body, iters):
+    return "var prev = nil;\nvar i = 0;\nwhile i < %d {\n    %s\n    i = i + 1;\n}\nprint(\"done\");\n" % (iters, body)
+
+
 def transient_program(rng):
     """Defines globals of every object kind, uses them, then drops every global it made."""
     k = rng.below(1000)
@@ -148,6 +173,11 @@ def correspondence(ctx, model_ok=True):
         srcs.append((a, b))
         for tag, s in (("n", a), ("2n", b)):
             cen_cases.append(vlib.case_line("cen%d%s" % (i, tag), ["S:" + vlib.hx(s), "G"], gc="default", steps=400000000))
+    for name, body in DIRECTED_LOOPS:
+        a, b = directed_loop(body, 150), directed_loop(body, 300)
+        srcs.append((a, b))
+        for tag, s in (("n", a), ("2n", b)):
+            cen_cases.append(vlib.case_line("dir-%s-%s" % (name, tag), ["S:" + vlib.hx(s), "G"], gc="default", steps=400000000))
     real = vlib.run_real(runner, cen_cases)
     cen_checked = 0
     for i, (a, b) in enumerate(srcs):
